@@ -513,6 +513,8 @@ class TaborChannelPair(AWG):
             waveform_to_segment[wf_index] = segment_index
 
         if np.any(to_amend):
+            # the placement counted the unreferenced segments behind the last referenced one as free space
+            self.cleanup()
             segments_to_amend = [segments[idx] for idx in np.flatnonzero(to_amend)]
             waveform_to_segment[to_amend] = self._amend_segments(segments_to_amend)
 
